@@ -7,11 +7,11 @@ Import ListNotations.
 
 (* ---- the two front ends (C: reb_particle_from_fmt_errV, Python: Particle.__init__) ------------------------- *)
 
-(* For every combination of passed arguments without NaN values the two parsers take the same decision: the same
+(* For EVERY combination of passed arguments (NaN values included) the two parsers take the same decision: the same
    error class, or the same construction path (Cartesian / Pal / classical) with the same sources for a
    (given or from P), omega (default / omega / pomega) and f (default / f / M / E / l / theta / T).
-   (Before /repo commit d64f81b this failed for `primary` + Pal variables; see known_findings.json.) *)
-Theorem C11_parsers_agree : forall g, no_nan_values g -> py_decide g = c_decide g.
+   (Before /repo d64f81b this failed for `primary` + Pal variables, before 369a765 for NaN values.) *)
+Theorem C11_parsers_agree : forall g, py_decide g = c_decide g.
 Proof. exact parsers_agree_l. Qed.
 Print Assumptions C11_parsers_agree.
 
@@ -22,12 +22,10 @@ Theorem C11_primary_with_pal_accepted : forall fl,
 Proof. exact primary_pal_flags. Qed.
 Print Assumptions C11_primary_with_pal_accepted.
 
-(* NaN-valued arguments: C treats them as "not passed", Python as passed. *)
-Theorem C11_nan_args_differ :
-  c_decide w_nan_x = Classical false PeriDefault AnDefault /\ py_decide w_nan_x = Reject 8 /\
-  c_decide w_nan_a = Classical true PeriDefault AnDefault /\ py_decide w_nan_a = Reject 11.
-Proof. exact nan_witnesses. Qed.
-Print Assumptions C11_nan_args_differ.
+(* an explicitly passed NaN (any of the 25 numeric arguments, m and r included) is rejected by both with code 16 *)
+Theorem C11_nan_args_rejected : forall g, any_nan g = true -> c_decide g = Reject 16 /\ py_decide g = Reject 16.
+Proof. exact nan_rejected. Qed.
+Print Assumptions C11_nan_args_rejected.
 
 (* ---- reb_particle_from_orbit_err over the reals ------------------------------------------------------------ *)
 Open Scope R_scope.
@@ -183,6 +181,23 @@ Theorem C11_roundtrip_inc : forall (L : libm R) (L2 : libm2 R) tiny G t0 prim m 
   o_inc o = inc.
 Proof. exact roundtrip_inc. Qed.
 Print Assumptions C11_roundtrip_inc.
+
+(* ... and the longitude of the node: for -PI < Omega <= PI and 0 < inc < PI it is returned EXACTLY; acos2's clamping
+   branches supply exactly the values 0 and PI.  (omega and f modulo 2pi: not proved.) *)
+Theorem C11_roundtrip_Omega : forall (L : libm R) (L2 : libm2 R), l_acos L2 = acos -> l_pi L = PI ->
+  forall tiny G t0 prim m a e t p o inc Om,
+  trig_ok t -> 0 < G * (m + pm prim) -> shape_ok a e -> -1 < e * cf t -> tiny <= pm prim ->
+  si t = sin inc -> 0 < inc < PI -> cO t = cos Om -> sO t = sin Om -> - PI < Om <= PI ->
+  from_orbit_err RNum tiny G prim m a e t = inr p ->
+  orbit_from_particle_err RNum L L2 tiny G t0 p prim = inr o ->
+  o_Omega o = Om.
+Proof. exact roundtrip_Omega. Qed.
+Print Assumptions C11_roundtrip_Omega.
+
+Theorem C11_acos2_inverts : forall (L : libm R) (L2 : libm2 R), l_acos L2 = acos -> l_pi L = PI ->
+  forall th K S, 0 < K -> 0 < S -> - PI < th <= PI -> acos2 RNum L L2 (K * cos th) K (S * sin th) = th.
+Proof. exact acos2_recover. Qed.
+Print Assumptions C11_acos2_inverts.
 
 (* Non-vacuity: a concrete inclined eccentric orbit (cos/sin pairs 3/5,4/5 etc.) meets every hypothesis. *)
 Example C11_hypotheses_inhabited :
